@@ -1,6 +1,7 @@
 package main
 
 import (
+	"sync"
 	"fmt"
 	"go/parser"
 	"go/types"
@@ -540,7 +541,10 @@ func (f *frame) havocOutside(st *State, c *ssa.CallCommon, args []T, all bool) {
 		}
 	}
 	e.preserving = !privToo
+	// A-OWN (type-based part): a callee outside the package cannot write map types that only the package writes
+	e.keepOwn = !privToo
 	e.havocClass(st, 0)
+	e.keepOwn = false
 	e.preserving = false
 	e.havocChans = false
 	if privToo {
@@ -553,6 +557,78 @@ func (f *frame) havocOutside(st *State, c *ssa.CallCommon, args []T, all bool) {
 	}
 	// A-OWN: objects referenced from the package's own fields keep their contents
 	f.preserve(old, st, nil)
+}
+
+// ownMapHeaps lists the (declared) map heaps of map types written only by the root's package.
+func (f *frame) ownMapHeaps() []string {
+	e := f.e
+	if e.privPkg == "" || f.root.fn.Pkg == nil {
+		return nil
+	}
+	rootPath := f.root.fn.Pkg.Pkg.Path()
+	var out []string
+	for k, pkgs := range mapWriters(f.W()) {
+		if len(pkgs) == 1 && pkgs[rootPath] {
+			if mt := mapWriterTypes[k]; mt != nil {
+				// declare the heaps even if this function has not mentioned them yet (lazy declaration would
+				// otherwise let a later first use see the post-call version)
+				d, ds, v, vs := f.mapHeaps(mt)
+				e.heapSort[d], e.heapSort[v] = ds, vs
+				out = append(out, d, v)
+			}
+		}
+	}
+	sort.Strings(out)
+	return out
+}
+
+var (
+	mapWritersOnce sync.Once
+	mapWritersTab  map[string]map[string]bool
+	mapWriterTypes = map[string]*types.Map{}
+)
+
+// mapWriters returns, per map type key, the packages containing an instruction that writes a map of that type.
+func mapWriters(w *World) map[string]map[string]bool {
+	mapWritersOnce.Do(func() {
+		tab := map[string]map[string]bool{}
+		add := func(t types.Type, fn *ssa.Function) {
+			mt, ok := t.Underlying().(*types.Map)
+			if !ok {
+				return
+			}
+			p := ""
+			for g := fn; g != nil && p == ""; g = g.Parent() {
+				if g.Pkg != nil {
+					p = g.Pkg.Pkg.Path()
+				} else if o := g.Origin(); o != nil && o.Pkg != nil {
+					p = o.Pkg.Pkg.Path()
+				}
+			}
+			k := typeKey(mt)
+			if tab[k] == nil {
+				tab[k] = map[string]bool{}
+				mapWriterTypes[k] = mt
+			}
+			tab[k][p] = true
+		}
+		for _, fn := range w.Funcs {
+			for _, b := range fn.Blocks {
+				for _, ins := range b.Instrs {
+					switch i := ins.(type) {
+					case *ssa.MapUpdate:
+						add(i.Map.Type(), fn)
+					case ssa.CallInstruction:
+						if bi, ok := i.Common().Value.(*ssa.Builtin); ok && (bi.Name() == "delete" || bi.Name() == "clear") && len(i.Common().Args) > 0 {
+							add(i.Common().Args[0].Type(), fn)
+						}
+					}
+				}
+			}
+		}
+		mapWritersTab = tab
+	})
+	return mapWritersTab
 }
 
 // collectReach records the map/slice/chan/pointer types reachable from t through concrete types.
@@ -690,7 +766,9 @@ func (f *frame) applyContract(at ssa.Instruction, ct *Contract, args []T, st *St
 				// A-OWN applies only to code that cannot reach the root package's own objects
 				pres := !f.calleeInRootPkg(ct)
 				e.preserving = pres
+				e.keepOwn = pres || ct.KeepOwnMaps
 				e.havocClass(st, 0)
+				e.keepOwn = false
 				e.preserving = false
 				if pres {
 					f.preserve(old, st, nil)
@@ -713,7 +791,9 @@ func (f *frame) applyContract(at ssa.Instruction, ct *Contract, args []T, st *St
 				}
 			case "all":
 				e.havocChans = true
+				e.keepOwn = ct.KeepOwnMaps
 				e.havocClass(st, 0)
+				e.keepOwn = false
 				e.havocChans = false
 				e.havocClass(st, 1)
 			default:
@@ -794,7 +874,7 @@ func (e *Enc) modAllows(ct *Contract, name string) bool {
 		switch {
 		case m == "all":
 			return true
-		case m == "shared" && e.class(name) == 0 && name != "CH_closed" && name != "CH_len":
+		case m == "shared" && (e.class(name) == 0 || e.class(name) == 3) && name != "CH_closed" && name != "CH_len":
 			return true
 		case m == "chans" && (name == "CH_closed" || name == "CH_len"):
 			return true
